@@ -5,3 +5,5 @@ import XzVerif.Props.C12
 #print axioms Props.C12.C12_concatenation
 #print axioms Props.C12.C12_single_stream
 #print axioms Props.C12.C12_input_preserved
+#print axioms Props.C12.C12_lazy_reader_concatenation
+#print axioms Props.C12.C12_lazy_single_stream_rejects_trailing
